@@ -570,8 +570,10 @@ def r8_guess_from_tree(ctx, rule):
                {'attributes_written_after_init': sorted(written_outside_init)})
 
 
-def _upper_bounds(expr, lin=lin):
-    """Exclusive range stop -> list of (term_text, inclusive_offset); None if not linear in one atom."""
+def _upper_bounds(expr, lin=lin, start=None):
+    """Exclusive range stop -> list of (term_text, inclusive_offset); None if not linear in one atom.
+    `max(start, T)` with `start` the first level of the walk bounds the levels like T (the first level is visited anyway - the
+    reference tests the budget only after moving up a level)."""
     parts = expr.args if isinstance(expr, ast.Call) and call_name(expr) == 'min' and not expr.keywords else [expr]
     shift = 0
     if isinstance(expr, ast.BinOp) and isinstance(expr.op, (ast.Add, ast.Sub)) and isinstance(expr.left, ast.Call) \
@@ -580,6 +582,10 @@ def _upper_bounds(expr, lin=lin):
         shift = const(expr.right) if isinstance(expr.op, ast.Add) else -const(expr.right)
     out = []
     for a in parts:
+        if start is not None and isinstance(a, ast.Call) and call_name(a) == 'max' and len(a.args) == 2 and not a.keywords:
+            rest_ = [x for x in a.args if U(x) != start]
+            if len(rest_) == 1:
+                a = rest_[0]
         l = lin(a)
         if l is None or len(l.t) != 1 or list(l.t.values())[0] != 1:
             return None
@@ -654,7 +660,9 @@ def r9_level_cursor_domain(ctx, rule):
             if isinstance(node, ast.For) and U(node.target) == 'level' and isinstance(node.iter, ast.Call) and call_name(node.iter) == 'range' \
                     and len(node.iter.args) == 2:
                 site = node
-                bounds = _upper_bounds(node.iter.args[1], blin)
+                bounds = _upper_bounds(node.iter.args[1], blin, start=U(expand(fn, node.iter.args[0], stores_)))
+                if bounds is None:
+                    bounds = _upper_bounds(node.iter.args[1], blin, start=U(node.iter.args[0]))
                 break
         if bounds is None and wrong_budget:
             n += 1
